@@ -339,6 +339,9 @@ def ite(c, a, b):
         b = b[3]
     if a == b:
         return a
+    # if a { if b { X } else { Y } } else { Y }  ==  if a && b { X } else { Y }   (conditions are truth values: exact)
+    if a[0] == 'ite' and a[3] is b:
+        return ite(land(c, a[1]), a[2], b)
     return mk('ite', c, a, b)
 
 
